@@ -44,7 +44,7 @@ theorem close_recovers (e : Engine) (h : e.state ≠ .disconnected) : (e.handleC
     operation and every queue as it was** (they survive for the next connection or for failure by policy). -/
 theorem decode_error_keeps_operations (e : Engine) (bs : Bytes) (hs : e.state = .connected ∨ e.state = .pendingDisconnect)
     (x : DecErr)
-    (hd : (decodeBytes { version := e.cfg.version, maxSize := e.cfg.connect.maximumPacketSize.getD maxVli } e.dec bs).err = some x) :
+    (hd : (decodeBytes { version := e.cfg.version, maxSize := e.cfg.connect.maximumPacketSize.getD maxPacket } e.dec bs).err = some x) :
     let e' := (e.handleData bs).1
     e'.state = .halted ∧ e'.ops = e.ops ∧ e'.userQ = e.userQ ∧ e'.resubQ = e.resubQ ∧ e'.highQ = e.highQ ∧
     e'.pendingPub = e.pendingPub ∧ e'.pendingNonPub = e.pendingNonPub ∧ e'.outBytes = e.outBytes ∧ e'.outComps = e.outComps ∧
